@@ -46,6 +46,8 @@ def make_target(kind, policy):
            "session_policy": policy.get("session", "ok"), "fc_policy": policy.get("fc", "ok"), "session_handle": policy.get("handle", 0x5EED0001),
            "session_refuse_handle": policy.get("refuse_handle", 0), "session_refuse_status": policy.get("refuse_status", 1),
            "lenient_session": policy.get("lenient", False),
+           # connections opened by Forward Open live until Forward Close (or a time-out): un-registering the session does not free them
+           "unregister_keeps_connections": True,
            "conn_ids": [0xC0DE0001, 0xC0DE0002, 0xC0DE0003]}
     if kind == "logix":
         mem = {"/d": (123456789).to_bytes(4, "little"), "/arr": bytes(range(10)), "/big": bytes((i * 3) & 0xFF for i in range(600))}
